@@ -734,15 +734,6 @@ impl<'value, 'loc: 'value> RootScope<'value, 'loc> {
         final(self).rules == old(self).rules,
         final(self).parameterized_rules == old(self).parameterized_rules,
 {
-        
-        
-        
-        
-        if let RecordType::RuleCheck(NamedStatus { name, status, .. }) = &record {
-            if self.rules.contains_key(*name) {
-                self.rules_status.insert(*name, *status);
-            }
-        }
         self.recorder.end_record(context, record)
     }
 }
